@@ -404,11 +404,17 @@ def entry_forms(ctx, prog):
         if f.impl_trait == "core::str::FromStr" and f.path.endswith("::from_str") and ("FuzzyHashData" in f.impl_self or "FuzzyHashDualData" in f.impl_self):
             n += 1
             ctx.visit(f)
-            e = strip(Sym(f).local(0))
+            sy0 = Sym(f)
+            e = strip(sy0.local(0))
             ok = e[0] == "call" and e[1].endswith("::from_bytes") and len(e[2]) == 1
-            if ok:
+            direct = e[0] == "call" and e[1].endswith("::from_bytes_with_last_index_internal") and len(e[2]) == 2
+            if ok or direct:
                 a = strip(e[2][0])
                 ok = a[0] == "call" and a[1].endswith("str>::as_bytes") and is_param(a[2][0], "s")
+                if ok and direct:
+                    # from_bytes written out: the driver on the same bytes with a fresh index 0
+                    ix = sy0.origin(strip(e[2][1]))
+                    ok = const_value(strip(ix)) == 0
             ctx.ob(RD, "%s = from_bytes(s.as_bytes()) (the text is handed over unchanged)" % f.short, ok, show(e)[:160], f.loc())
         if f.path.endswith("::from_bytes") and f.exported and ("FuzzyHashData" in f.path or "FuzzyHashDualData" in f.path):
             n += 1
